@@ -14,6 +14,12 @@ Local Open Scope num_scope.
 Section FModel.
 Context {T : Type} `{Num T}.
 Variable rt : T -> T.       (* square root *)
+(* variant switches, measured on the code at run time (both values are proved sound under [fok]):
+   rzv: RosenbrockFunctional.gradient divides the partial derivatives by the weights (proposed repair)
+        instead of returning them as they are (current source);
+   mav: MatrixOperator.adjoint is the true adjoint  W^-1 M^T W'  between weighted spaces (the repair
+        asked of C05) instead of the plain transpose (current source) *)
+Variable rzv mav : bool.
 
 (* RosenbrockFunctional(space, scale=c):  sum_i c (x_{i+1} - x_i^2)^2 + (x_i - 1)^2  and its gradient
    (the vector of partial derivatives; the code does not look at the weighting) *)
@@ -75,13 +81,15 @@ Fixpoint fwt (f : fexpr) : bool :=
 (* the gradient of a composition uses op.derivative(x).adjoint, which for MatrixOperator is the plain
    transpose: a true adjoint only between unweighted spaces (recorded finding otherwise) *)
 Definition all_one (w : list T) : bool := forallb (fun a => a =? none_) w.
+Definition all_nz (w : list T) : bool := forallb (fun a => negb (a =? nzero)) w.
 Fixpoint fok (w : list T) (f : fexpr) : bool :=
   match f with
-  | FRosen _ _ => all_one w      (* its gradient ignores the weighting: right only on unweighted spaces *)
+  | FRosen _ _ => (rzv && all_nz w) || all_one w
+      (* the unrepaired gradient ignores the weighting: right only on unweighted spaces *)
   | FL2Sq _ | FL2 _ | FL1 _ | FConst _ _ => true
   | FLScal f _ | FRScal f _ | FScalarSum f _ | FTransl f _ | FQP f _ _ _ | FRVec f _ => fok w f
   | FSum f g | FProd f g | FQuot f g => fok w f && fok w g
-  | FCompM f w' _ _ => all_one w && all_one w' && fok w' f
+  | FCompM f w' _ _ => ((mav && all_nz w) || (all_one w && all_one w')) && fok w' f
   end.
 
 Fixpoint feval (w : list T) (f : fexpr) (x : list T) : T :=
@@ -113,7 +121,7 @@ Fixpoint mtvec (n : nat) (rows : list (list T)) (g : list T) : list T :=
 (* the element f.gradient(x) *)
 Fixpoint fgrad (w : list T) (f : fexpr) (x : list T) : list T :=
   match f with
-  | FRosen _ c => rgrad c x
+ | FRosen _ c => if rzv then vdiv (rgrad c x) w else rgrad c x
   | FL2Sq _ => vscal (of_Z 2) x                                   (* ScalingOperator(2) *)
   | FL2 _ => let nrm := rt (wdot w x x) in
              if nrm =? nzero then vconst (length x) nzero else map (fun a => a / nrm) x
@@ -130,7 +138,9 @@ Fixpoint fgrad (w : list T) (f : fexpr) (x : list T) : list T :=
       let fx := feval w f x in let gx := feval w g x in
       vadd (vscal (none_ / gx) (fgrad w f x)) (vscal (- fx / (gx * gx)) (fgrad w g x))
   | FRVec f v => vmul v (fgrad w f (vmul v x))                    (* v * f.gradient * v *)
-  | FCompM f w' n rows => mtvec n rows (fgrad w' f (mvec rows x)) (* op'(x)^* (f.gradient(op x)), ^* = transpose *)
+  | FCompM f w' n rows =>                                        (* op'(x)^* (f.gradient(op x)) *)
+      let g := fgrad w' f (mvec rows x) in
+      if mav then vdiv (mtvec n rows (vmul w' g)) w else mtvec n rows g
   end.
 
 End FModel.
